@@ -408,10 +408,13 @@ def _x8_by_trace(prog, f, conv):
             for a in C.call_args(calls[0]):
                 pth = a.strip_all_casts().get("path")
                 cv = C.const_of(a)
+                sa_ = a.strip_all_casts()
                 if pth in names:
                     nxt.append(args[names.index(pth)])
                 elif cv is not None:
                     nxt.append(cv)
+                elif sa_.k == "DeclRefExpr" and sa_.get("decl", {}).get("kind") == "function":
+                    nxt.append(("fn", sa_["decl"]["name"]))      # a converter handed over as a function pointer
                 else:
                     return None
             g, args = prog.fn(calls[0]["callee"]), nxt
